@@ -42,6 +42,24 @@ def naturalF2 (xs fs : List Rat) : Option (List Rat) :=
     if i == 0 || i + 1 == n then 0 else (f (i + 1) - f i) / (x (i + 1) - x i) - (f i - f (i - 1)) / (x i - x (i - 1))
   solve rows rhs
 
+/-- second derivatives of the cubic spline through `(xs, fs)` with zero slope at both ends (`splineDerivativeZero`): the interior rows
+are those of `naturalF2`, the end rows say `S'(x₀) = 0` and `S'(xₙ) = 0` -/
+def clampedF2 (xs fs : List Rat) : Option (List Rat) :=
+  let n := xs.length
+  if n < 3 then none else
+  let x := fun i => C12.nth xs i
+  let f := fun i => C12.nth fs i
+  let rows : Mat := (List.range n).map fun i =>
+    if i == 0 then (List.range n).map fun j => if j == 0 then (x 1 - x 0) / 3 else if j == 1 then (x 1 - x 0) / 6 else 0
+    else if i + 1 == n then (List.range n).map fun j => if j + 2 == n then (x i - x (i - 1)) / 6 else if j + 1 == n then (x i - x (i - 1)) / 3 else 0
+    else (List.range n).map fun j =>
+      if j + 1 == i then (x i - x (i - 1)) / 6 else if j == i then (x (i + 1) - x (i - 1)) / 3 else if j == i + 1 then (x (i + 1) - x i) / 6 else 0
+  let rhs : List Rat := (List.range n).map fun i =>
+    if i == 0 then (f 1 - f 0) / (x 1 - x 0)
+    else if i + 1 == n then -((f i - f (i - 1)) / (x i - x (i - 1)))
+    else (f (i + 1) - f i) / (x (i + 1) - x i) - (f i - f (i - 1)) / (x i - x (i - 1))
+  solve rows rhs
+
 def ratSqrt (q : Rat) : Rat :=
   if q ≤ 0 then 0 else ((Nat.sqrt (q.num.toNat * 10 ^ 40 / q.den) : Nat) : Rat) / (10 ^ 20 : Nat)
 
